@@ -271,7 +271,9 @@ func checkC09(e *Engine, r *Report) {
 		uc := e.callsTo(create, unmap)
 		if len(uc) == 1 {
 			r.MustPass("R1:rm-create-stale->release", "R1 release pairing", "a stale instance with the same name is released before the new container is admitted", create, uc[0].(ssa.Instruction), nil,
-				func(in ssa.Instruction) bool { return isCallOfObj(in, polRelease) || isCallOfObj(in, polAlloc) && false }, okOf(uc[0].Value(), true))
+				func(in ssa.Instruction) bool {
+					return isCallOfObj(in, polRelease) || isCallOfObj(in, polAlloc) && false
+				}, okOf(uc[0].Value(), true))
 			p := FindPath(PathQuery{Fn: create, From: uc[0].(ssa.Instruction), Assume: okOf(uc[0].Value(), true),
 				Block: func(in ssa.Instruction) bool { return isCallOfObj(in, polRelease) }, Target: func(in ssa.Instruction) bool { return isCallOfObj(in, polAlloc) }})
 			r.Check("R1:rm-create-stale-release-first", "R1 release pairing", "the stale instance is released before AllocateResources runs", e.InstrPos(uc[0]), create, p == nil, e.pathString(p), true)
@@ -460,7 +462,9 @@ func checkC09(e *Engine, r *Report) {
 		ac := firstCallOfObj(fn, mAcctAlloc)
 		if ac != nil {
 			r.MustPass("R13:ta-AllocateCPU-failure->ReleaseCPU", "R13 error-path undo", "every failure after the exclusive CPUs were accounted releases them again", fn, ac.(ssa.Instruction),
-				func(ret *ssa.Return) bool { return e.ClassifyReturn(ret) == retNonNilErr || e.ClassifyReturn(ret) == retUnknown && isNilConstV(ret.Results[0]) },
+				func(ret *ssa.Return) bool {
+					return e.ClassifyReturn(ret) == retNonNilErr || e.ClassifyReturn(ret) == retUnknown && isNilConstV(ret.Results[0])
+				},
 				func(in ssa.Instruction) bool { return isCallOfObj(in, mReleaseCPU) }, nil)
 		} else {
 			r.Undecided("R13:ta-AllocateCPU", "R13 error-path undo", "AllocateCPU accounts the grant", e.Pos(fn.Pos()), fn, "AccountAllocateCPU call not found")
